@@ -153,14 +153,6 @@ Section TaffyIface.
   Qed.
 
   (* ---- NS, the part that holds: nodes that are not block containers, without baseline alignment *)
-  Definition t_align_items (s : TS) : option FAlign := fs_align_items (bf_flex (ts_bf s)).
-  Definition t_align_self (s : TS) : option FAlign := fs_align_self (bf_flex (ts_bf s)).
-  Definition fa_not_baseline (a : option FAlign) : bool := match a with Some FA_Baseline => false | _ => true end.
-  (* the class: display is not block, neither align_items nor align_self is baseline *)
-  Definition t_calm (s : TS) : bool :=
-    negb (match display (t_core s) with DBlock => true | _ => false end)
-    && fa_not_baseline (t_align_items s) && fa_not_baseline (t_align_self s).
-
   Theorem taffy_algo_NS_partial s st i :
     t_calm s = true -> Forall (fun c => t_calm c = true) st -> qi_mode i = ComputeSize -> SO (algo s st i).
   Proof.
@@ -204,4 +196,31 @@ Section Real.
   Theorem real_algo_NS_partial s st i : t_calm s = true -> Forall (fun c => t_calm c = true) st -> qi_mode i = ComputeSize ->
     SizeOnly (FIn T) (LayoutOutput T) (FLay T) qi_mode (real_algo s st i).
   Proof. apply taffy_algo_NS_partial. Qed.
+
+  (* ---- the engine on calm trees satisfies ALL FIVE hypotheses *)
+  Notation CS := (CalmStyle (T := T)).
+  Lemma calm_nones (st : list CS) c : nones (TStyle T) t_is_none (map calm_style st) c = nones CS calm_is_none st c.
+  Proof. apply (nones_comap (TStyle T) CS calm_style t_is_none calm_is_none). intros s. reflexivity. Qed.
+
+  Theorem calm_algo_WF (s : CS) st i : WFAlg (FIn T) (LayoutOutput T) (FLay T) qi_mode (calm_algo s st i).
+  Proof. apply real_algo_WF. Qed.
+  Theorem calm_algo_H1 (s : CS) st i : qi_mode i = PerformLayout ->
+    Visits (FIn T) (LayoutOutput T) (FLay T) qi_mode (seq 0 (length st)) (calm_algo s st i).
+  Proof.
+    intros Em. unfold calm_algo, style_comap. replace (length st) with (length (map calm_style st)) by apply map_length.
+    apply real_algo_H1. exact Em.
+  Qed.
+  Theorem calm_algo_H3 (s : CS) st i : qi_mode i = PerformLayout ->
+    SetsLast (FIn T) (LayoutOutput T) (FLay T) (nones CS calm_is_none st) (seq 0 (length st)) (calm_algo s st i).
+  Proof.
+    intros Em. unfold calm_algo, style_comap. eapply SL_none_ext; [apply calm_nones|].
+    replace (length st) with (length (map calm_style st)) by apply map_length. apply real_algo_H3. exact Em.
+  Qed.
+  Theorem calm_algo_HQ (s : CS) st i : NoHiddenSize (FIn T) (LayoutOutput T) (FLay T) qi_mode (nones CS calm_is_none st) (calm_algo s st i).
+  Proof. unfold calm_algo, style_comap. eapply NHS_none_ext; [apply calm_nones|]. apply real_algo_HQ. Qed.
+  Theorem calm_algo_NS (s : CS) st i : qi_mode i = ComputeSize -> SizeOnly (FIn T) (LayoutOutput T) (FLay T) qi_mode (calm_algo s st i).
+  Proof.
+    intros Em. unfold calm_algo, style_comap. apply real_algo_NS_partial; [exact (proj2_sig s)| |exact Em].
+    apply Forall_map. apply Forall_forall. intros c _. exact (proj2_sig c).
+  Qed.
 End Real.
